@@ -56,6 +56,7 @@ func checkC05(c *Ctx, r *Report) {
 	zeroPadded(c, r, "C05.R3.zero-padded")
 	parseNarrowing(c, r, "C05.R6.parse-narrowing")
 	genericPrefix(c, r, "C05.R2.generic-prefix")
+	nodeIDFormat(c, r, "C05.R4.nodeid-format")
 }
 
 // c05R5: numeric limit agreement: the TTL parser accepts exactly the range the 32-bit header field (and its printer) has.
